@@ -515,15 +515,18 @@ Proof.
 Qed.
 
 Lemma func_decimal_rel op ps1 ps2 v1 v2 :
-  op = AAdd \/ op = ASub \/ op = AMul ->
   cls v1 v2 -> Forall2 Rp ps1 ps2 -> orel Rv (func_decimal op ps1 v1) (func_decimal op ps2 v2).
 Proof.
-  intros Hop Hc Hp. unfold func_decimal.
+  intros Hc Hp. unfold func_decimal.
   eapply orel_bind; [apply Rp_first_number; exact Hp|]. intros p q Hpq.
+  assert (Hz : dis_zero p = false -> coef p <> 0%Z).
+  { unfold dis_zero. intros E. apply Z.eqb_neq. exact E. }
+  rewrite (dis_zero_resp p q Hpq) in Hz |- *.
   destruct (cls_dec_or_not v1 v2 Hc) as [[d1 [d2 [-> [-> Hd]]]]|[N1 N2]].
-  - destruct Hop as [->|[->| ->]]; cbn [orel]; apply Rv_dec;
-      [apply dadd_resp | apply dsub_resp | apply dmul_resp]; assumption.
-  - destruct Hop as [->|[->| ->]];
+  - destruct op; try (destruct (dis_zero q); [exact I|]); cbn [orel]; apply Rv_dec;
+      [apply dadd_resp | apply dsub_resp | apply dmul_resp | apply ddiv_resp | apply dmod_resp];
+      try assumption; apply Hz; reflexivity.
+  - destruct op; try (destruct (dis_zero q); [exact I|]);
       destruct v1; try discriminate N1; destruct v2; try discriminate N2; exact I.
 Qed.
 
@@ -702,25 +705,24 @@ Proof.
 Qed.
 
 Definition agg_val (a : agg) (l : list dec) : dec :=
-  match a with AggSum => sum_of l | AggMin => min_of l | AggMax => max_of l | AggAvg => dzero end.
+  match a with AggSum => sum_of l | AggMin => min_of l | AggMax => max_of l | AggAvg => avg_of l end.
 
-Lemma agg_out_val a l : a <> AggAvg -> agg_out a (Some l) = Ok (VDec (agg_val a l)).
-Proof. intros Ha. destruct a; try (contradiction Ha; reflexivity); destruct l as [|d [|e r]]; reflexivity. Qed.
+Lemma agg_out_val a l : agg_out a (Some l) = Ok (VDec (agg_val a l)).
+Proof. destruct a; destruct l as [|d [|e r]]; reflexivity. Qed.
 
-Lemma agg_out_rel a l1 l2 : a <> AggAvg -> lrel l1 l2 -> orel Rv (agg_out a (Some l1)) (agg_out a (Some l2)).
+Lemma agg_out_rel a l1 l2 : lrel l1 l2 -> orel Rv (agg_out a (Some l1)) (agg_out a (Some l2)).
 Proof.
-  intros Ha Hl. rewrite !agg_out_val by exact Ha. cbn [orel]. apply Rv_dec.
-  destruct a; try (contradiction Ha; reflexivity); cbn [agg_val];
-    [apply lrel_sum | apply lrel_min | apply lrel_max]; exact Hl.
+  intros Hl. rewrite !agg_out_val. cbn [orel]. apply Rv_dec.
+  destruct a; cbn [agg_val]; [apply lrel_sum | apply lrel_avg | apply lrel_min | apply lrel_max]; exact Hl.
 Qed.
 
 Lemma agg_out_opt_rel a (b1 b2 : bool) o1 o2 p1 p2 :
-  a <> AggAvg -> opt_rel (Forall2 deqv) o1 o2 -> Forall2 deqv p1 p2 ->
+  opt_rel (Forall2 deqv) o1 o2 -> Forall2 deqv p1 p2 ->
   orel Rv (agg_out a (option_map (fun ds => if b1 then ds ++ p1 else p1 ++ ds) o1))
           (agg_out a (option_map (fun ds => if b2 then ds ++ p2 else p2 ++ ds) o2)).
 Proof.
-  intros Ha Ho Hp. destruct o1 as [l1|], o2 as [l2|]; cbn in Ho; try contradiction; [|exact I].
-  cbn [option_map]. apply agg_out_rel; [exact Ha|].
+  intros Ho Hp. destruct o1 as [l1|], o2 as [l2|]; cbn in Ho; try contradiction; [|exact I].
+  cbn [option_map]. apply agg_out_rel.
   destruct b1, b2; [apply lrel_app | apply lrel_app_comm | apply lrel_app_comm | apply lrel_app]; assumption.
 Qed.
 
@@ -744,23 +746,23 @@ Proof.
 Qed.
 
 Lemma func_decimal_slice_rel a ps1 ps2 v1 v2 :
-  st = false -> pt = false -> a <> AggAvg ->
+  st = false -> pt = false ->
   cls v1 v2 -> Forall2 Rp ps1 ps2 -> orel Rv (func_decimal_slice a ps1 v1) (func_decimal_slice a ps2 v2).
 Proof.
-  intros Hst Hpt Ha Hc Hp. pose proof (pnums_rel ps1 ps2 Hp) as Hpn.
+  intros Hst Hpt Hc Hp. pose proof (pnums_rel ps1 ps2 Hp) as Hpn.
   destruct Hc as [|b|s|d1 d2 Hd|v1 v2 t1 t2 xs1 xs2 H1 H2 Hn A1 A2 T1 T2 Hxs|x y n fs1 fs2 Pa Pb H1 H2 Hf].
   - cbn. apply Rv_dec, deqv_refl.
   - cbn. apply Rv_dec, deqv_refl.
   - cbn. apply Rv_dec, deqv_refl.
   - change (func_decimal_slice a ps1 (VDec d1)) with (agg_out a (Some ([d1] ++ pnums ps1))).
     change (func_decimal_slice a ps2 (VDec d2)) with (agg_out a (Some ([d2] ++ pnums ps2))).
-    apply agg_out_rel; [exact Ha|]. apply lrel_app; [constructor; [exact Hd | constructor] | exact Hpn].
+    apply agg_out_rel. apply lrel_app; [constructor; [exact Hd | constructor] | exact Hpn].
   - destruct (fds_seq a ps1 v1 t1 xs1 H1 T1) as [b1 ->], (fds_seq a ps2 v2 t2 xs2 H2 T2) as [b2 ->].
-    apply agg_out_opt_rel; [exact Ha | apply elems_numbers_rel; exact Hxs | exact Hpn].
+    apply agg_out_opt_rel; [apply elems_numbers_rel; exact Hxs | exact Hpn].
   - destruct (objlike_map_only x n fs1 Hst Hpt Pa H1) as [kt1 [vt1 [kvs1 [-> M1]]]].
     destruct (objlike_map_only y n fs2 Hst Hpt Pb H2) as [kt2 [vt2 [kvs2 [-> M2]]]].
     rewrite (fds_map a ps1 kt1 vt1 n kvs1 fs1 M1), (fds_map a ps2 kt2 vt2 n kvs2 fs2 M2).
-    apply (agg_out_opt_rel a false false); [exact Ha | | exact Hpn].
+    apply (agg_out_opt_rel a false false); [| exact Hpn].
     apply elems_numbers_rel. apply Rflds_values; assumption.
 Qed.
 
@@ -910,12 +912,12 @@ Qed.
 Definition common_funcs : list string :=
   ["Equal"; "NotEqual"; "Less"; "LessOrEqual"; "Greater"; "GreaterOrEqual"; "Invert"; "Not";
    "Contains"; "NotContains"; "Prefix"; "NotPrefix"; "Suffix"; "NotSuffix";
-   "Count"; "Any"; "First"; "Last"; "Index"; "Add"; "Subtract"; "Multiply"; "AnyOf";
+   "Count"; "Any"; "First"; "Last"; "Index"; "Add"; "Subtract"; "Multiply"; "Divide"; "Modulo"; "AnyOf";
    "TrimRight"; "TrimLeft"; "Right"; "Left"; "DoesMatchRegex"; "ReplaceRegex"; "ReplaceAll";
    "IsNull"; "IsNotNull"; "IsEmpty"; "IsNotEmpty"; "IsNullOrEmpty"; "IsNotNullOrEmpty"]%string.
 Definition noptr_funcs : list string := ["AsArray"]%string.
 Definition mapobj_funcs : list string := ["RemoveKeysByRegex"; "RemoveKeysByPrefix"; "RemoveKeysBySuffix"]%string.
-Definition mapobj_noptr_funcs : list string := ["Sum"; "Minimum"; "Maximum"]%string.
+Definition mapobj_noptr_funcs : list string := ["Sum"; "Average"; "Minimum"; "Maximum"]%string.
 
 Definition mem (k : string) (l : list string) : bool := existsb (String.eqb k) l.
 
@@ -960,9 +962,11 @@ Proof.
     + apply func_first_rel; assumption.
     + apply func_last_rel; assumption.
     + apply func_index_rel; assumption.
-    + apply func_decimal_rel; [left; reflexivity | assumption | assumption].
-    + apply func_decimal_rel; [right; left; reflexivity | assumption | assumption].
-    + apply func_decimal_rel; [right; right; reflexivity | assumption | assumption].
+    + apply func_decimal_rel; assumption.
+    + apply func_decimal_rel; assumption.
+    + apply func_decimal_rel; assumption.
+    + apply func_decimal_rel; assumption.
+    + apply func_decimal_rel; assumption.
     + apply func_any_of_rel; assumption.
     + apply string_part_func_rel; assumption.
     + apply string_part_func_rel; assumption.
@@ -985,8 +989,8 @@ Proof.
       apply func_remove_keys_by_rel; assumption.
   - apply andb_true_iff in Ha. destruct Ha as [Hm Ha]. apply andb_true_iff in Hm. destruct Hm as [Hst Hpt].
     apply negb_true_iff in Hst. apply negb_true_iff in Hpt.
-    apply mem_In in Ha. cbn [In mapobj_noptr_funcs] in Ha. destruct Ha as [<-|[<-|[<-|[]]]]; rf;
-      apply func_decimal_slice_rel; try assumption; discriminate.
+    apply mem_In in Ha. cbn [In mapobj_noptr_funcs] in Ha. destruct Ha as [<-|[<-|[<-|[<-|[]]]]]; rf;
+      apply func_decimal_slice_rel; assumption.
 Qed.
 
 End Mode.
